@@ -69,19 +69,27 @@ class C19(Plugin):
                             ok = False
                         seen_u.add(u)
                 known = recs if ok else None
-            yield [Some(known) if known is not None else None, delims or [], Some(cutoff) if cutoff is not None else None, meta, uris, uris2, ""]
+            yield [Some(known) if known is not None else None, delims or [], Some(cutoff) if cutoff is not None else None, meta, uris, uris2, "", []]
 
     def observe(self, case):
         import curies
         from curies.discovery import discover
 
-        known, delims, cutoff, meta, uris, uris2, _ = case
+        known, delims, cutoff, meta, uris, uris2 = case[:6]
         chars = sorted({c for u in uris + uris2 for c in u})
         alnum = "".join(c for c in chars if c.isalnum())
-        case = [known, delims, cutoff, meta, uris, uris2, alnum]
         conv = None
         if known is not None:
             conv = curies.Converter(qprops.mk_records(known.v))
+        # "URIs the given converter already recognises" is judged against what converter.is_uri answers on the implementation
+        recog = []
+        for u in dict.fromkeys(list(uris) + list(uris2)):
+            try:
+                r = bool(conv.is_uri(u)) if conv is not None else False
+            except Exception:
+                r = False
+            recog.append([u, int(r)])
+        case = [known, delims, cutoff, meta, uris, uris2, alnum, recog]
 
         def one(us):
             try:
@@ -106,7 +114,7 @@ class C19(Plugin):
         o = obs[0]
         if not o or o[0] != 0:
             return False
-        known, delims, cutoff, meta, uris, uris2, _ = case
+        known, delims, cutoff, meta, uris, uris2 = case[:6]
         return len(o[1]) >= 2 or (cutoff is not None and cutoff.v >= 2 and len(uris) >= 2) or (known is not None and len(uris) > 0)
 
     def stats(self, case, obs, acc):
